@@ -5,9 +5,9 @@
 pkg=$1; fn=$2; dur=$3; sub=$4; par=${5:-8}
 cd /verif/harness || exit 2
 export GOFLAGS=-mod=mod GOPROXY=off GOSUMDB=off GOTOOLCHAIN=local
-cache=/var/tmp/verif-fuzzcache/$pkg-$fn
-mkdir -p $cache /verif/corpus/$sub /verif/corpus/_findings
-go1.26.8 test -tags verif -vet=off -run '^$' -fuzz "^$fn\$" -fuzztime $dur -parallel $par -test.fuzzcachedir $cache ./$pkg > /var/tmp/verif-fuzzcache/$pkg-$fn.log 2>&1
+cache=$(go1.26.8 env GOCACHE)/fuzz/verif/harness/$pkg/$fn
+mkdir -p /var/tmp/verif-fuzzcache /verif/corpus/$sub /verif/corpus/_findings
+go1.26.8 test -tags verif -vet=off -run '^$' -fuzz "^$fn\$" -fuzztime $dur -parallel $par ./$pkg > /var/tmp/verif-fuzzcache/$pkg-$fn.log 2>&1
 rc=$?
 go1.26.8 run ./cmd/corpusconv "$cache" "/verif/corpus/$sub"
 if ls /verif/harness/$pkg/testdata/fuzz/$fn/* >/dev/null 2>&1; then
